@@ -9,8 +9,10 @@ cp -r /verif/fixtures/stageg/. "$DIR/"
 (cd /repo && go build -o "$DIR/gleece" .)
 cd "$DIR/project"
 for e in gin echo mux chi fiber; do
-  if ! "$DIR/gleece" generate routes --config gleece.$e.json > "$DIR/generate.$e.log" 2>&1; then
-    echo "route generation failed for $e" >&2; tail -20 "$DIR/generate.$e.log" >&2; exit 2
-  fi
+  for c in gleece.$e.json gleece.$e.nd.json; do
+    if ! "$DIR/gleece" generate routes --config $c > "$DIR/generate.$e.log" 2>&1; then
+      echo "route generation failed for $c" >&2; tail -20 "$DIR/generate.$e.log" >&2; exit 2
+    fi
+  done
 done
 go build ./... 
